@@ -330,10 +330,11 @@ func runSchedTest(t *testing.T, sp schedSpec) {
 			for i, c := range sc.Cmds {
 				cmds[i] = ConcCmd{Op: c.Op, Park: c.Park}
 			}
-			var growth, mutex []string
+			var growth, mutex, sameLog []string
+			probeReads = sp.growthOnly
 			if len(sc.Actions) > 0 {
 				sr := w.runSchedule(cmds, sc.Actions)
-				cmds, growth, mutex = sr.cmds, sr.growth, sr.mutex
+				cmds, growth, mutex, sameLog = sr.cmds, sr.growth, sr.mutex, sr.sameLog
 			} else {
 				cmds = w.runFree(cmds)
 			}
@@ -343,6 +344,11 @@ func runSchedTest(t *testing.T, sp schedSpec) {
 			}
 			if sp.growthOnly || sp.prop == "C02" {
 				for _, g := range growth {
+					viol = append(viol, Violation{sp.prop, g})
+				}
+			}
+			if sp.growthOnly {
+				for _, g := range sameLog {
 					viol = append(viol, Violation{sp.prop, g})
 				}
 			}
@@ -454,7 +460,8 @@ func runSchedTest(t *testing.T, sp schedSpec) {
 		}
 		cmds := make([]ConcCmd, n)
 		free := pct(rt, 25, "free") && !sp.growthOnly
-		var growth, mutex []string
+		var growth, mutex, sameLog []string
+		probeReads = sp.growthOnly
 		var actions []SchedAction
 		for i := range ops {
 			cmds[i] = ConcCmd{Op: ops[i]}
@@ -568,7 +575,7 @@ func runSchedTest(t *testing.T, sp schedSpec) {
 			}
 			sr := w.runSchedule(cmds, actions)
 			cmds = sr.cmds
-			growth, mutex = sr.growth, sr.mutex
+			growth, mutex, sameLog = sr.growth, sr.mutex, sr.sameLog
 			if sr.lockOverlap {
 				stats.Label("started_while_another_is_parked_holding_the_lock")
 			}
@@ -582,6 +589,11 @@ func runSchedTest(t *testing.T, sp schedSpec) {
 		}
 		if sp.growthOnly || sp.prop == "C02" {
 			for _, g := range growth {
+				viol = append(viol, Violation{sp.prop, g})
+			}
+		}
+		if sp.growthOnly {
+			for _, g := range sameLog {
 				viol = append(viol, Violation{sp.prop, g})
 			}
 		}
@@ -732,7 +744,7 @@ func TestC11Conc(t *testing.T) {
 func TestC12Conc(t *testing.T) {
 	runSchedTest(t, schedSpec{
 		prop: "C12", test: "TestC12Conc", growthOnly: true,
-		rule:  "a generated store and 2-4 concurrent mutating commands (appends and plan's whole-file rewrite mixed, compact excluded from the judgement) parked / resumed by the controller; the log is read after every controller action (exactly one process runs between two reads); oracle: every change keeps all earlier events, in order, with unchanged content; non-trivial = executions overlap and at least one park landed",
+		rule:  "a generated store and 2-4 concurrent mutating commands (appends and plan's whole-file rewrite mixed, compact excluded from the judgement) parked / resumed by the controller; the log is read after every controller action (exactly one process runs between two reads); oracle: every change keeps all earlier events, in order, with unchanged content; and two reads (`list --all`, JSON and human) made while the log holds the same bytes print the same thing, whoever is stopped wherever (holding the lock, between two steps of a rewrite) at the time; non-trivial = executions overlap and at least one park landed",
 		kinds: map[string]int{"new_task": 20, "set": 22, "claim": 8, "sequence": 10, "plan": 22, "prune_yes": 8, "compact": 6, "new_epic": 4}, minN: 2, maxN: 4, setup: setupProfile,
 	})
 }
@@ -794,10 +806,11 @@ func TestC09Conc(t *testing.T) {
 // schedPre are store conditions that are not state: crash residue at the end of the log,
 // an old lock file, the legacy log name. Every command must cope with them.
 type schedPre struct {
-	TornTail int
-	OldLock  bool
-	Legacy   bool
-	StaleTmp int
+	TornTail   int
+	OldLock    bool
+	Legacy     bool
+	StaleTmp   int
+	SymlinkLog bool // the log is a symbolic link to a file outside .ergo (a shared store)
 }
 
 func (p schedPre) apply(root string) {
@@ -805,6 +818,15 @@ func (p schedPre) apply(root string) {
 		plans := filepath.Join(root, ".ergo", "plans.jsonl")
 		if _, err := os.Stat(plans); err == nil {
 			_ = os.Rename(plans, filepath.Join(root, ".ergo", "events.jsonl"))
+		}
+	}
+	if p.SymlinkLog {
+		lp := LogPath(root)
+		if fi, err := os.Lstat(lp); err == nil && fi.Mode().IsRegular() {
+			real := filepath.Join(root, "shared-log.jsonl")
+			if os.Rename(lp, real) == nil {
+				_ = os.Symlink(filepath.Join("..", "shared-log.jsonl"), lp)
+			}
 		}
 	}
 	if b := ReadLog(root); p.TornTail > 0 && (len(b) == 0 || b[len(b)-1] == '\n') {
